@@ -175,7 +175,7 @@ template <typename PH> struct PpsChain {
       if (d == -2) hx::inconclusive("hull_oracle");
       else if (d == -3) { violation(key("certificate", op.name, TR::nnc() ? ":ppl-compare-nnc-counts" : ":ppl-compare"), txt + "; y=" + show_ps(SY) + " result=" + show_ps(SZ)); return false; }
       else if (d == -4) { violation(key("certificate", op.name, ":decreases-only-in-uninverted-order"), "the multiset of disjunct certificates decreases in the order of the BHZ03 papers but not in the order of Certificate::compare(const Certificate&), which inverts the dimension components: " + txt + "; y=" + show_ps(SY) + " x=" + show_ps(SX) + " result=" + show_ps(SZ)); return false; }
-      else if (d != 1 && TR::nnc()) { hx::inconclusive("certificate_recomputed_on_point_set_for_nnc"); return true; }   // see wc_convex.hh
+      else if (d != 1 && TR::nnc()) { hx::inconclusive("certificate_recomputed_on_point_set_for_nnc"); }   // see wc_convex.hh
       else if (d != 1) { violation(key("certificate", op.name, TR::nnc() ? ":nnc-counts" : ""), "non-stationary step without strict decrease of the recomputed powerset certificate: " + txt + "; y=" + show_ps(SY) + " x=" + show_ps(SX) + " result=" + show_ps(SZ)); return false; }
     }
     if (!twin_reported && coin(70)) {
